@@ -22,7 +22,11 @@ EXPLANATION = (
     "`{` [space] value [!conv] [:spec] `}` and nothing else). C04-R4: quote discipline for literals "
     "nested in replacement fields (strings flip the quote, everything else inherits it, a format "
     "spec is rendered in line under the enclosing quote); C03-R7: every child reaches the text "
-    "through the driver's precedence comparison."
+    "through the driver's precedence comparison. C04-R6: no cell of code points whose raw emission "
+    "is safe is written as a backslash escape (inside a replacement field the literal would be "
+    "refused). C04-R7: the refusal of backslash / enclosing quote is applied to the EXPRESSION of a "
+    "replacement field, not to text that includes its format spec (an escape there is legal on "
+    "every version)."
 )
 ASSUMPTIONS = ["contracts of ascii()/repr() as documented", "nothing is claimed about ast.unparse (stdlib)"]
 
@@ -536,9 +540,10 @@ def rule_r4(ctx):
         rr.ok("quote|format_spec", sample={"rule": "C04-R4", "format_spec": "rendered in line under the enclosing quote", "holes_below_spec": n_spec})
     # does the renderer refuse a field whose text contains the quote of the enclosing f-string?
     # (then a re-used quote never reaches the output: the script is rejected instead)
-    jp = ctx.ustr.paths("JoinedStr")
-    qt = [p for p in jp if any(k.startswith("contains:") and "<qm>" in k and v is True for k, v in p.assign.items())]
-    refuses_outer_quote = bool(qt) and all(p.outcome == "raise" for p in qt)
+    from .c15 import _field_tests
+
+    q_where, _qt, q_accepted, q_untested = _field_tests(ctx, "<qm>")
+    refuses_outer_quote = q_where is not None and not q_accepted and not q_untested
     # only two quote characters: nesting depth 3 re-uses the outermost quote
     rr.instances += 1
     quotes = set()
@@ -586,4 +591,73 @@ def _c02r5(ctx):
     return r(ctx)
 
 
-RULES = [("C02-R5", _c02r5), ("C03-R7", _driver), ("C04-R1", rule_r1), ("C04-R2", rule_r2), ("C04-R3", rule_r3), ("C04-R4", rule_r4)]
+def rule_r6(ctx):
+    """A literal inside a replacement field must not need a backslash when a backslash-free spelling
+    exists: before 3.12 the field cannot contain one, so the renderer has to refuse the f-string
+    (C15-R2).  A cell that is escaped although its raw emission is safe turns every such literal
+    into a refusal of a valid script."""
+    rr = RuleResult("C04-R6", "no code point that can be written raw is written as a backslash escape (a literal in a replacement field would be refused)")
+    rr.exhaustive = True
+    rr.floor = 6
+    fi, paths = cached(ctx, "escape_paths", lambda: _escape_paths(ctx))
+    okp = [p for p in paths if p.outcome == "ok"]
+    if not okp:
+        raise AnalysisError("get_unescaped_str could not be analysed")
+    failing = {}
+    for qm in ("'", '"'):
+        for lo, hi in _cells(okp):
+            if lo < 0x80 or (lo >= 0xD800 and hi <= 0xDFFF):
+                continue  # ASCII: ascii() is the character itself or a necessary escape; surrogates need one
+            rr.instances += 1
+            matching = [pr for pr in okp if all(_holds(k, v, lo, hi, qm) == v for k, v in pr.assign.items())]
+            if len(matching) != 1:
+                raise AnalysisError(f"C04-R6: {len(matching)} paths of get_unescaped_str match cell U+{lo:04X}..U+{hi:04X}")
+            em, desc = _emission(matching[0])
+            what = f"cell|U+{lo:04X}..U+{hi:04X}|quote={qm}|raw-possible"
+            if em == "ascii" and _safe("raw", lo, hi, qm)[0]:
+                failing[(lo, hi)] = desc
+            else:
+                rr.ok(what, sample={"rule": "C04-R6", "cell": f"U+{lo:04X}..U+{hi:04X}", "quote": qm, "emission": desc})
+    merged = []
+    for lo, hi in sorted(failing):
+        if merged and merged[-1][1] + 1 == lo:
+            merged[-1][1] = hi
+        else:
+            merged.append([lo, hi])
+    for lo, hi in merged:
+        cell = f"U+{lo:04X}..U+{hi:04X}"
+        rr.fail(
+            f"C04-R6|{cell}|escaped-although-raw-is-safe",
+            f"{fi.where()}: code points {cell} are written as {failing[min(k for k in failing if k[0] >= lo)]} although they can be written raw (as the neighbouring non-ASCII cells are). Inside a replacement field the backslash makes the renderer refuse the whole f-string: `print(f\"{{d['\u00e9']}}\")` / `f\"{{t:>5}}{{'\u00b0C'}}\"` end with `SyntaxError: Back slash is included in a f-string expression` under unparser=oneliner, although no backslash is needed",
+            where=fi.where(), what=f"cell|{cell}|raw-possible",
+        )
+    return rr
+
+
+def rule_r7(ctx):
+    """Before 3.12 only the EXPRESSION of a replacement field is restricted (no backslash, no quote of
+    the f-string); the format spec is a piece of the string literal, where an escape is legal on
+    every version.  A refusal test applied to the text of the whole field also refuses literal
+    format-spec text that needs an escape."""
+    from .c15 import _field_tests
+
+    rr = RuleResult("C04-R7", "the refusal of backslash / enclosing quote is applied to the expression of a replacement field, not to its format spec")
+    rr.floor = 2
+    U = ctx.ustr
+    for needle, label in (("\\\\", "backslash"), ("<qm>", "outer-quote")):
+        rr.instances += 1
+        where, tests, _a, _u = _field_tests(ctx, needle)
+        whole = _field_tests(ctx, needle, want_field_level=True)
+        what = f"FormattedValue|{label}|subject"
+        if whole:
+            rr.fail(
+                f"C04-R7|JoinedStr|{label}|refusal-covers-format-spec",
+                f"{U.gen_map['JoinedStr'].where()}: the {label} test is applied to the text of the whole replacement field, format spec included. In a format spec an escape is legal on every Python version (the spec is part of the string literal), and the escaper writes the f-string's own quote, a tab or a backslash of the spec as an escape: `x = 5; print(f\"{{x:'>4}}\")`, `f\"{{x:\\t>4}}\"`, `f\"{{d:%H\\\\%M}}\"` are refused with SyntaxError under unparser=oneliner although `f'{{x:\\'>4}}'` runs on 3.8-3.13",
+                where=U.gen_map["JoinedStr"].where(), what=what,
+            )
+        else:
+            rr.ok(what, sample={"rule": "C04-R7", "needle": label, "tested": where or "nowhere (see C15-R2)"})
+    return rr
+
+
+RULES = [("C02-R5", _c02r5), ("C03-R7", _driver), ("C04-R1", rule_r1), ("C04-R2", rule_r2), ("C04-R3", rule_r3), ("C04-R4", rule_r4), ("C04-R6", rule_r6), ("C04-R7", rule_r7)]
